@@ -1,4 +1,4 @@
-//! C12 monitor (not written yet).
+//! C04 monitor (not written yet).
 pub fn run(_ctx: &crate::ctx::Ctx, report: &mut vcore::Report) {
     report.notes.push("stub".into());
 }
